@@ -1357,7 +1357,10 @@ def run(ctx) -> Result:
 
     # corpus first
     for c in load_corpus():
-        (check_chain_cases if "mode" in c else check_graph_cases)(res, [c], 1, *(() if "mode" in c else ("corpus",)))
+        if c.get("mode") == "nested":
+            check_nested_cases(res, [c], 1)
+        else:
+            (check_chain_cases if "mode" in c else check_graph_cases)(res, [c], 1, *(() if "mode" in c else ("corpus",)))
         res.count("corpus")
 
     # exhaustive small graphs
